@@ -259,7 +259,7 @@ func sample(c Case) any {
 func gen(t *rapid.T) Case {
 	c := Case{FinalNewline: rapid.Bool().Draw(t, "final_newline"), FlatHeader: rapid.IntRange(0, 3).Draw(t, "flat_header") == 0}
 	n := rapid.SampledFrom([]int{1, 1, 1, 2, 3, 5}).Draw(t, "n_records")
-	maxSeq := vk.Pick(3000, 100000)
+	maxSeq := vk.Pick(100000, 100000) // records above the 64 KiB scanner/token sizes matter in the quick tier too
 	for i := 0; i < n; i++ {
 		c.Records = append(c.Records, gbk.Draw(t, fmt.Sprintf("r%d", i), maxSeq, 40))
 	}
